@@ -70,6 +70,13 @@ def gen_cases(tier, seed):
         yield C(w="reuse", solver=["SGD", "Adam", "Adagrad", "LBFGSB"][i % 4], loss=["GAUSSIAN", "POISSON"][(i // 4) % 2],
                 shapes=[[int(s) for s in rng.integers(2, 5, size=int(rng.integers(2, 4)))] for _ in range(3)], same_size=bool(i % 2),
                 rate=float(rng.choice([1e-2, 0.5])), nsolves=int(rng.integers(2, 4)))
+    # solves of very different sizes on one L-BFGS-B object, run to convergence: any tolerance or workspace remembered from an earlier
+    # (larger or smaller) problem changes where the later solve stops
+    for i in range(6 if tier == "quick" else 40):
+        big = [int(s) for s in rng.integers(6, 10, size=3)]
+        small = [int(s) for s in rng.integers(2, 4, size=int(rng.integers(2, 4)))]
+        yield C(w="reuse", solver="LBFGSB", loss=["GAUSSIAN", "POISSON"][i % 2], shapes=[big, small, big][i % 2:] + [small], same_size=False,
+                rate=0.0, nsolves=3, maxiter=[300, 60, 1000][i % 3])
 
 
 def _data_array(rng, shape, fill, loss="GAUSSIAN"):
@@ -330,11 +337,11 @@ def _w_reuse(case, ctx, rng):
         shp = tuple(shp)
         Xd = _loss_data(rng, shp, loss)
         probs.append((ttb.tensor(Xd.copy()), ttb.ktensor([rng.uniform(0.2, 1.0, size=(s, 2)) for s in shp])))
-    ctx.feat(solver=case["solver"], same_size=case["same_size"], loss=loss)
+    ctx.feat(solver=case["solver"], same_size=case["same_size"], loss=loss, to_convergence=case.get("maxiter", 4) > 4)
 
     def mk():
         if case["solver"] == "LBFGSB":
-            return OPT.LBFGSB(maxiter=4)
+            return OPT.LBFGSB(maxiter=case.get("maxiter", 4))
         return _mk_solver(case["solver"], rate=case["rate"], max_fails=1, epoch_iters=2, max_iters=3)
 
     shared = mk()
